@@ -790,6 +790,7 @@ func (envs *Manager) TeardownEnvironment(environmentId uid.ID, force bool) error
 	})
 
 	// we trigger all cleanup hooks, first calls, then tasks immediately after
+	hookTasksToRelease := make(task.Tasks, 0)
 	for _, weight := range allWeights {
 		hooksForWeight, ok := hooksMapForDestroy[weight]
 		if ok {
@@ -797,6 +798,7 @@ func (envs *Manager) TeardownEnvironment(environmentId uid.ID, force bool) error
 
 			// calls done, we start the task hooks...
 			cleanupTaskHooks := hooksForWeight.FilterTasks()
+			hookTasksToRelease = append(hookTasksToRelease, cleanupTaskHooks...)
 
 			// ...but only if their parent role is still ACTIVE (i.e. not killed or executor failed)
 			cleanupTaskHooks = cleanupTaskHooks.Filtered(func(t *task.Task) bool {
@@ -811,11 +813,10 @@ func (envs *Manager) TeardownEnvironment(environmentId uid.ID, force bool) error
 					WithError(err).
 					Warn("environment post-destroy hooks failed")
 			}
-
-			// and then we kill them too
-			taskmanMessage = task.NewEnvironmentMessage(taskop.ReleaseTasks, environmentId, cleanupTaskHooks, nil)
 		}
 	}
+	// and then we release the hook tasks of all weights too, whether they ran or not
+	taskmanMessage = task.NewEnvironmentMessage(taskop.ReleaseTasks, environmentId, hookTasksToRelease, nil)
 
 	envs.cancelCallsPendingAwait(env)
 
